@@ -330,6 +330,44 @@ def collect():
         container_writes += sc.container_writes
         opaque += sc.opaque
         object_writes += sc.object_writes
+    # ---- uses (reads) of the module-level DSL objects inside functions: they may only START an accumulation or be an
+    # operand of + / -; handing one out (returned, stored in a sample / container / attribute, passed to a call) would let
+    # its never-reset value cache reach user-visible results
+    object_uses = []
+    mo = set(n for _, n, _ in module_objects)
+    for rel, tree in trees:
+        for fn in [x for x in ast.walk(tree) if isinstance(x, (ast.FunctionDef, ast.AsyncFunctionDef))]:
+            loads = [x for x in ast.walk(fn) if isinstance(x, ast.Name) and x.id in mo and isinstance(x.ctx, ast.Load)]
+            if not loads:
+                continue
+            parents = {}
+            for par in ast.walk(fn):
+                for ch in ast.iter_child_nodes(par):
+                    parents[id(ch)] = par
+            for ld in loads:
+                par = parents.get(id(ld))
+                kind = "escapes: " + ast.unparse(par)[:60] if par is not None else "escapes"
+                if isinstance(par, ast.BinOp) and isinstance(par.op, (ast.Add, ast.Sub)):
+                    kind = "operand"
+                elif isinstance(par, ast.Assign) and len(par.targets) == 1 and isinstance(par.targets[0], ast.Name) \
+                        and par.value is ld:
+                    alias = par.targets[0].id
+                    ok = True
+                    for x in ast.walk(fn):
+                        if isinstance(x, ast.Name) and x.id == alias and x is not par.targets[0]:
+                            px = parents.get(id(x))
+                            if isinstance(px, ast.AugAssign) and px.target is x and isinstance(px.op, (ast.Add, ast.Sub)):
+                                continue
+                            if isinstance(px, ast.BinOp) and isinstance(px.op, (ast.Add, ast.Sub)):
+                                continue
+                            if isinstance(px, ast.Assign) and len(px.targets) == 1 and px.targets[0] is x \
+                                    and isinstance(px.value, ast.BinOp):
+                                continue
+                            ok = False
+                            kind = "escapes through %s: %s" % (alias, ast.unparse(px)[:50] if px is not None else "?")
+                    if ok:
+                        kind = "accumulator"
+                object_uses.append((rel, fn.name, ld.id, kind))
     # ---- _reset_classes / PEP.__init__
     reset_fields, init_first, reads_before = [], False, []
     pep = None
@@ -387,7 +425,7 @@ def collect():
             status["init"] = True if idx else "PEP.__init__ never calls self._reset_classes() at top level"
     return dict(status=status, class_attrs=class_attrs, mutations=mutations, module_objects=module_objects,
                 module_containers=module_containers, container_writes=container_writes, opaque=opaque,
-                object_writes=object_writes,
+                object_writes=object_writes, object_uses=object_uses,
                 reset_fields=reset_fields, init_first=init_first, reads_before=reads_before,
                 n_files=len(trees), n_classes=len(classes))
 
@@ -432,6 +470,9 @@ def translate():
         "writes into a module-level container from PEPit's own code")
     lst("module_object_writes", "string", [cstr(o) for o in c["object_writes"]],
         "writes to attributes / dictionaries of the module-level DSL objects from PEPit's own code (must be empty)")
+    lst("module_object_uses", "(string * string * string * string)",
+        ["(%s, %s, %s, %s)" % (cstr(a), cstr(b), cstr(n_), cstr(k)) for a, b, n_, k in c["object_uses"]],
+        "reads of the module-level DSL objects inside functions (module, function, object, how it is used)")
     lst("opaque_writes", "string", [cstr(o) for o in c["opaque"]],
         "writes to class state that cannot be attributed statically (must be empty)")
     lst("reset_fields", "(string * string * ginit)",
